@@ -33,7 +33,7 @@ func checkC10(p *Prog, r *Report) {
 	r.rule("C10.M4", "in flush every makeSpace(n) is followed, before the next makeSpace/flushBuffer/exit, by pointer advances that sum to at most n on every path; makeSpace outputs iff size + n > mtu, flushBuffer iff size > 0; the output callback is invoked nowhere else", 5)
 	r.rule("C10.M5", "segments are created with size <= mss and the stream-mode append extends to at most mss", 2)
 	r.rule("C10.M6", "UDPSession.SetMtu hands KCP.SetMtu exactly min(mtuLimit, mtu) - headerSize (- Overhead() under the *aeadCrypt test); headerSize is the crypto header (or NonceSize()) plus fecHeaderSizePlus2 iff an encoder exists; the output path reserves headerSize bytes", 5)
-	r.rule("C10.M7", "the FEC group size is the running maximum of its packets' lengths and is reset together with the shard count on every path; parity is cut to it; duplicate and parity copies have the length of their source", 4)
+	r.rule("C10.M7", "the FEC group size is the running maximum of its packets' lengths and is reset together with the shard count on every path; parity is cut to it; duplicate and parity copies have the length of their source", 3)
 	r.rule("C10.M8", "SendOOB obtains a buffer only under convSize + len(data) <= kcp.mtu; GetOOBMaxSize returns kcp.mtu - convSize", 2)
 	r.rule("C10.M10", "the core MTU is derived from the complete header size: after every store to UDPSession.headerSize every path to the function's return passes a call of UDPSession.SetMtu (which reads headerSize) — a layer's header added after the default MTU was applied is not accounted for until the application calls SetMtu itself", 3)
 	r.rule("C10.M9", "UDPSession.SetMtu returns true only if KCP.SetMtu returned 0", 1)
@@ -91,6 +91,13 @@ func checkC10(p *Prog, r *Report) {
 			}
 			if Lin(p.Term(ms.Rhs)).Equal(Lin(sub(mtuT, tConst(overhead)))) {
 				okMss = true
+			}
+			// mss = uint32(m) with the local m := mtu - IKCP_OVERHEAD of the same value that is stored into the mtu field
+			if st.Rhs != nil {
+				raw := stripConvs(p.Term(st.Rhs))
+				if Lin(stripConvs(p.resolveSingleDefs(st.Fn, p.Term(ms.Rhs)))).Equal(Lin(sub(raw, tConst(overhead)))) {
+					okMss = true
+				}
 			}
 		}
 		for _, bs := range p.FieldStores(fBuf) {
@@ -1010,7 +1017,20 @@ func checkFECGroupSize(p *Prog, r *Report) {
 	get := p.Method("bufferPool", "Get")
 	for _, s := range p.CallsTo(get) {
 		if s.Fn != pp {
-			continue
+			// a copy helper that only postProcess calls (pooledCopy(src))
+			part := s.Fn.Obj != nil && !s.Fn.Obj.Exported() && s.Fn.Lit == nil
+			if part {
+				sites := p.CallsTo(s.Fn.Obj)
+				part = len(sites) > 0
+				for _, cs := range sites {
+					if rootFuncInfo(cs.Fn) != pp {
+						part = false
+					}
+				}
+			}
+			if !part {
+				continue
+			}
 		}
 		se, ok := p.parents[s.Call].(*ast.SliceExpr)
 		if !ok || se.High == nil {
@@ -1025,7 +1045,7 @@ func checkFECGroupSize(p *Prog, r *Report) {
 		// the next statement copies from that source
 		okCopy := false
 		if as, ok := p.parents[se].(*ast.AssignStmt); ok && okLen {
-			c := p.CFG(pp)
+			c := p.CFG(s.Fn)
 			pt, _ := c.PointOf(as)
 			if pt.I+1 < len(pt.B.Nodes) {
 				inspectShallow(pt.B.Nodes[pt.I+1], func(x ast.Node) bool {
